@@ -287,7 +287,7 @@ func runC07Random(t *fw.T) {
 
 func runC07Backticks(t *fw.T) {
 	r := t.Rand()
-	pieces := []string{"a", " ", "  ", "\t", "\n", " \n", "  \n", "\t\n", "\n\n", "\\`", "\\\\", "\\n", "\\t", "\\$", "${1+1}", "${\"s\"}", "$", "{", "}", "\"", "'", "//", "é", "😀", "\\x41", "\\u0041", "\\u{41}", "\\\n", ";", "x y"}
+	pieces := []string{"a", " ", "  ", "\t", "\n", " \n", "  \n", "\t\n", "\n\n", "\r", "\r\n", " \r", "\u2028", "\\`", "\\\\", "\\n", "\\t", "\\$", "${1+1}", "${\"s\"}", "$", "{", "}", "\"", "'", "//", "é", "😀", "\\x41", "\\u0041", "\\u{41}", "\\\n", ";", "x y"}
 	var lits []litCase
 	fixed := []string{"``", "`\\``", "`a\\\\`", "`\\\\`", "`\\\\\\``", "`line1\nline2`", "`trail  \nnext`", "` lead`", "`tail `", "`\n`", "`a\n  b  \n\tc\t\n`", "`${1+1}`", "`a${\"b\"}c`", "`\\${x}`", "`$`", "`\\n`"}
 	if t.Index == 0 {
@@ -317,6 +317,35 @@ func runC07Backticks(t *fw.T) {
 // must stay strings ("01" is not the key 1).
 var numberLikeStrings = []string{`"01"`, `"007"`, `"1e3"`, `"0x10"`, `"0b11"`, `"0o7"`, `"1.0"`, `"1."`, `".5"`, `"-1"`, `"+1"`, `" 1"`, `"1 "`, `""`, `"1_0"`, `"0"`, `"1"`, `"42"`, `"4294967295"`,
 	`"9007199254740993"`, `"1e21"`, `"Infinity"`, `"NaN"`, `"-0"`, `"a"`, `"a b"`, `"a-b"`, `"if"`, `"let"`, `"function"`, `"null"`, `"true"`, `"$"`, `"_x"`, `"x1"`, `"1x"`, `"é"`, `"__proto__"`, `"constructor"`, `"\\x41"`, `"\\u0031"`, `'single'`, `'it\\'s'`, `'"'`}
+
+// adjacent literals: two string literals as the operands of one `+` (a printer that folds constants, or any change that
+// lets the text of one literal touch the text of the next, changes the value when the first ends in an escape that the
+// second can extend). The completion value is the concatenation.
+var litEndings = []string{`\0`, `a\0`, `\7`, `\12`, `\3`, `\\`, `x\\`, `\x41`, `\u00e9`, `\u{41}`, `abc`, `1`, ``, `\n`, `é`, `\ud83d`}
+var litStarts = []string{`1`, `7`, `9`, `0`, `08`, `a`, `f`, `F`, `u0041`, `x41`, `n`, `{41}`, `\n`, ` `, ``, `"`, `'`, `\ude00`, `\x31`, `\u0031`}
+
+func runC07Adjacent(t *fw.T) {
+	r := t.Rand()
+	var lits []litCase
+	mk := func(body string) string {
+		q := []string{`"`, `'`}[r.IntN(2)]
+		body = strings.ReplaceAll(body, q, `\`+q)
+		return q + body + q
+	}
+	for i := 0; i < 24; i++ {
+		l1, l2 := litEndings[r.IntN(len(litEndings))], litStarts[r.IntN(len(litStarts))]
+		if r.IntN(3) == 0 {
+			l1 = gen.RandStrBody(r, 0) + l1
+		}
+		if r.IntN(3) == 0 {
+			l2 = l2 + gen.RandStrBody(r, 0)
+		}
+		a, b := mk(l1), mk(l2)
+		lits = append(lits, litCase{a + " + " + b, "adjacent-literals/+"}, litCase{"[" + a + ", " + b + `].join("")`, "adjacent-literals/array"})
+		t.Distinct(a + b)
+	}
+	checkLiterals(t, lits, "adjacent")
+}
 
 func runC07Contexts(t *fw.T) {
 	r := t.Rand()
@@ -399,6 +428,7 @@ func init() {
 			{Name: "backtick-strings", Quick: 500, Thorough: 5000, Run: runC07Backticks},
 			{Name: "numbers", Quick: 200, Thorough: 2000, Run: runC07Numbers},
 			{Name: "literal-positions", Quick: 300, Thorough: 3000, Run: runC07Contexts},
+			{Name: "adjacent-literals", Quick: 200, Thorough: 2000, Run: runC07Adjacent},
 		},
 	})
 }
